@@ -325,7 +325,7 @@ def main():
     cases = sum(r.get("cases", 0) for r in results)
     distinct = sum(r.get("distinct_nontrivial", 0) for r in results)
     disagreements = [d for r in results for d in r.get("disagreements", []) if prop in d.get("props", prop).split(",")]
-    viols = [v for r in results for v in r.get("violations", []) if v.get("property") == prop]
+    viols = [v for r in results for v in r.get("violations", []) if v.get("property") in (prop, "*")]
     herrs = [e for r in results for e in r.get("harness_errors", [])]
 
     # ---- 3. verdict ---------------------------------------------------------------------------------
